@@ -15,6 +15,11 @@ import c09_damage as D
 GEN_AVOID = {"unsigned_byte"}
 
 
+# operators with several distinct damaged values: that many consecutive variants are enumerated per node
+VARIANTS = {"base64": 4, "xsliteral": 8, "wronglist": 3, "modeltype": 3, "enum": 3, "wrongtype": 3, "forbidden": 2,
+            "overlong": 2}
+
+
 def build_sources(rng, n_gen, size_lo=2, size_hi=4):
     """-> list of dicts {name, fmt, doc, items:[(list, idx, id)], base:{id: canon}} ; plus list of notes"""
     from basyx.aas.examples.data import create_example
@@ -112,10 +117,27 @@ def enumerate_cases(rng, sources, budget, per_victim_nodes=None):
             for path in nodes:
                 for op in appl(d, path):
                     oid = witnesses[0][2] if witnesses else None
-                    specs.append((si, victim, tuple(witnesses), path, op, rng.randrange(10 ** 6), oid))
+                    nv = VARIANTS.get(op, 1)
+                    base = rng.randrange(10 ** 6)
+                    for v in range(nv):
+                        specs.append((si, victim, tuple(witnesses), path, op, base + v, oid))
     total = len(specs)
     if budget and total > budget:
-        specs = rng.sample(specs, budget)
+        # stratified by (format, operator): rare operators (duplicated id, wrong list, xs literal, base64, modelType)
+        # are run exhaustively up to their share, the rest of the budget is drawn uniformly
+        groups = {}
+        for sp in specs:
+            groups.setdefault((sources[sp[0]]["fmt"], sp[4]), []).append(sp)
+        share = max(1, budget // (2 * len(groups)))
+        chosen, rest = [], []
+        for key in sorted(groups):
+            g = groups[key]
+            rng.shuffle(g)
+            chosen += g[:share]
+            rest += g[share:]
+        if len(chosen) < budget:
+            chosen += rng.sample(rest, min(len(rest), budget - len(chosen)))
+        specs = chosen
     return specs, total
 
 
